@@ -970,7 +970,14 @@ def seq_text(seq):
                 kw += ", overriding_name=%r" % rg["regname"]
             if rg.get("desc") is not None:
                 kw += ", description=%r" % rg["desc"]
-            out.append("R%d.add_method_handler(f%d%s)" % (ri, rg["sub"], kw))
+            if rg.get("fail") == "never":
+                kw += ", method_config=MethodConfig()"
+            target = "a plain Subroutine" if rg.get("fail") == "notabi" else "f%d" % rg["sub"]
+            txt = "R%d.add_method_handler(%s%s)" % (ri, target, kw)
+            if rg.get("fail"):
+                txt = "try: %s  [must be rejected: %s]" % (txt, {"dup": "signature already registered", "never": "never executed",
+                                                                 "notabi": "not an ABIReturnSubroutine", "collide": "selector collides with an earlier method"}[rg["fail"]])
+            out.append(txt)
     return "; ".join(out)
 
 
@@ -1022,14 +1029,47 @@ def seq_check(seq, version=8):
                 kw["overriding_name"] = rg["regname"]
             if rg.get("desc") is not None:
                 kw["description"] = rg["desc"]
+            if rg.get("fail"):
+                target = subs[rg["sub"]]
+                if rg["fail"] == "never":
+                    kw["method_config"] = pt.MethodConfig()
+                if rg["fail"] == "notabi":
+                    target = pt.Subroutine(pt.TealType.none)(lambda: pt.Pop(pt.Int(1)))
+                try:
+                    router.add_method_handler(target, **kw)
+                    fails.append("R%d accepted a registration that must be rejected (%s): %s" % (ri, rg["fail"], seq_text({"subs": seq["subs"], "routers": [[rg]]})))
+                except pt.TealInputError:
+                    pass
+                continue
             router.add_method_handler(subs[rg["sub"]], **kw)
         teal, _c, contract = router.compile_program(version=version)
+        if any(rg.get("fail") for rg in regs):
+            # the same router with only the successful registrations
+            ref = pt.Router("R%d" % ri)
+            for rg in regs:
+                if not rg.get("fail"):
+                    kw = {}
+                    if rg.get("regname"):
+                        kw["overriding_name"] = rg["regname"]
+                    if rg.get("desc") is not None:
+                        kw["description"] = rg["desc"]
+                    ref.add_method_handler(subs[rg["sub"]], **kw)
+            rteal, _rc, rcontract = ref.compile_program(version=version)
+            n += 1
+            if contract.dictify() != rcontract.dictify():
+                fails.append("contract of R%d differs from the contract of a router built with only the successful registrations: %s vs %s" % (
+                    ri, [m_["name"] for m_ in contract.dictify()["methods"]], [m_["name"] for m_ in rcontract.dictify()["methods"]]))
+            # (the TEAL text itself is not compared: scratch-slot numbers depend on when a shared subroutine's body was first
+            #  evaluated in this process — C11's subject; the dispatch constants are compared with the registrations below)
+            if sorted(s_ for s_, _ in teal_selectors(teal) if s_) != sorted(s_ for s_, _ in teal_selectors(rteal) if s_):
+                fails.append("approval program of R%d dispatches on other selectors than a router built with only the successful registrations" % ri)
         routers.append(router)
         early.append(contract_entries(contract))
         early_objs.append(contract)
     for ri, regs in enumerate(seq["routers"]):
         teal, _c, contract = routers[ri].compile_program(version=version)
         late = contract_entries(contract)
+        regs = [rg for rg in regs if not rg.get("fail")]
         exp = [seq_expected(seq, rg) for rg in regs]
         n += 1
         for when, got in (("when router R%d was built" % ri, early[ri]), ("after all routers were built", late),
@@ -1078,6 +1118,25 @@ def random_for(seq, ri, k):
     return random.Random(hash((len(seq["subs"]), ri, k)) & 0xFFFF)
 
 
+_collide = []
+
+
+def colliding_names():
+    """two method names n1 != n2 with selector(n1(uint64)uint64) == selector(n2(uint64)uint64) (birthday search, ~10^5 hashes, cached)"""
+    if not _collide:
+        seen = {}
+        i = 0
+        while True:
+            nm = "c%d" % i
+            sel = CL.selector("%s(uint64)uint64" % nm)
+            if sel in seen:
+                _collide.extend([seen[sel], nm])
+                break
+            seen[sel] = nm
+            i += 1
+    return _collide[0], _collide[1]
+
+
 def gen_sequences(rng, thorough):
     out = []
     U = ("uint", 64)
@@ -1108,6 +1167,25 @@ def gen_sequences(rng, thorough):
                 out.append({"subs": [dep(doc)], "routers": [[ra], [rb]]})
     # (C) three routers
     out.append({"subs": [dep(None)], "routers": [[{"sub": 0, "regname": "a"}], [{"sub": 0}], [{"sub": 0, "regname": "c", "desc": "third"}]]})
+    # (E) attempts that the router must reject (TealInputError, caught by the caller) between successful registrations:
+    #     a duplicate signature, an all-NEVER MethodConfig, a non-ABIReturnSubroutine, a colliding selector
+    wd = {"name": "withdraw", "params": [U, "string"], "ret": None, "doc": None}
+    n1, n2 = colliding_names()
+    for doc in (None, "Deposit some amount."):
+        for kind in ("dup", "never", "notabi", "collide"):
+            bad = {"sub": 0, "fail": kind}
+            first = {"sub": 0}
+            if kind == "never":
+                bad = {"sub": 1, "fail": kind, "desc": "never"}
+            if kind == "collide":
+                first = {"sub": 0, "regname": n1}
+                bad = {"sub": 0, "regname": n2, "fail": kind}
+            for tail in ([], [{"sub": 1, "regname": "take", "desc": "after the rejected one"}]):
+                for head in ([first], [{"sub": 1}, first]):
+                    out.append({"subs": [dep(doc), wd], "routers": [head + [bad] + tail]})
+        # a rejected overriding-name duplicate, then the same object under a fresh name; two rejected attempts in a row
+        out.append({"subs": [dep(doc), wd], "routers": [[{"sub": 0, "regname": "a"}, {"sub": 0, "regname": "a", "desc": "again", "fail": "dup"}, {"sub": 0, "regname": "b"}]]})
+        out.append({"subs": [dep(doc), wd], "routers": [[{"sub": 0}, {"sub": 0, "fail": "dup"}, {"sub": 1, "fail": "never"}, {"sub": 1}], [{"sub": 1, "fail": "never"}, {"sub": 0}]]})
     # (D) random: 2-3 subroutine objects, 2-3 routers, 1-4 registrations each
     for q in range(60 if thorough else 24):
         subs = []
@@ -1129,6 +1207,13 @@ def gen_sequences(rng, thorough):
                     continue
                 used.add((nm, si))
                 regs.append(rg)
+                r_ = rng.random()
+                if r_ < 0.2:
+                    regs.append(dict(rg, fail="dup"))
+                elif r_ < 0.3:
+                    regs.append({"sub": rng.randrange(len(subs)), "regname": "never%d_%d" % (ri, k), "fail": "never", "desc": "x"})
+                elif r_ < 0.35:
+                    regs.append({"sub": si, "fail": "notabi"})
             if regs:
                 routers.append(regs)
         if routers:
@@ -1150,6 +1235,7 @@ def sequence_results(ck, seqs, results):
         regs = [(ri, rg["sub"]) for ri, rr in enumerate(seq["routers"]) for rg in rr]
         nreg["registrations"] += len(regs)
         nreg["same_object_reregistered"] += len(regs) - len(set(s_ for _, s_ in regs))
+        nreg["rejected_attempts"] = nreg.get("rejected_attempts", 0) + sum(1 for rr in seq["routers"] for rg in rr if rg.get("fail"))
         ck.count(("seq", repr(seq)))
         if r[0] != "ok":
             failing.append((seq, ["building the routers raised %s: %s" % (r[1], r[2])]))
